@@ -14,8 +14,11 @@ import outcome, corpus, render
 TOKENS = ["PRINT", "IF", "THEN", "ELSE", "END", "FOR", "TO", "NEXT", "STEP", "WHILE", "WEND", "DO", "LOOP", "SELECT", "CASE", "DIM", "AS",
           "INTEGER", "SUB", "FUNCTION", "GOTO", "ON", "ERROR", "RESUME", "CONST", "AND", "NOT", "MOD", "A", "B%", "C$", "X.Y", "1", "2.5",
           "&HFF", '"s"', '"', "'", "(", ")", ",", ";", "=", "+", "-", ":", "#", " ",
-          "\u00e9", "\u00f1x", "x\u00f1", "Str", "Len", "A(1)", "R.X(1)", ".", "$", "%", "1E5", "&H", "_"]
-NTOK_CFG = 61      # the constant NTok of Soup_*.cfg
+          "\u00e9", "\u00f1x", "x\u00f1", "Str", "Len", "A(1)", "R.X(1)", ".", "$", "%", "1E5", "&H", "_",
+          "&O8", "&O17", "&o7", "&hff", "&HG", "X.Y$", "A.B.C%", "A$(1)", "TYPE", "CALL", "DATA", "READ", "INPUT", "OPEN", "GOSUB", "RETURN",
+          "EXIT", "DEFINT", "STATIC", "SHARED", "REDIM", "LET", "ELSEIF", "UNTIL", "USING", "TAB(", "2#", "1e", "1.", ".5", "LPRINT", "REM",
+          "DECLARE", "LINE", "FIELD", "LSET", "GET", "CLOSE", "*", "/", "<", "<>", "\\", "^", "!", "&", "?", "1D5", "99999999999", "OR"]
+NTOK_CFG = len(TOKENS)      # the constant NTok of Soup_*.cfg
 EOLS = ["\r\n", "\n", "\r"]
 
 LEX = re.compile(r'"[^"\r\n]*"?|\r\n|\r|\n|[ \t]+|&[HhOo][0-9A-Fa-f]*|[0-9]+\.?[0-9]*|[A-Za-z][A-Za-z0-9.]*[%&!#$]?|<=|>=|<>|.', re.S)
